@@ -28,7 +28,7 @@ def _fresh(rng, used, near, n):
     return out
 
 
-def augment(spec, rng, press_control=None, circ_loop=None, pi_valves=None, geodata=None, t_ext_grid=None):
+def augment(spec, rng, press_control=None, circ_loop=None, pi_valves=None, geodata=None, t_ext_grid=None, ju_valves=None):
     """None = decide randomly"""
     spec = copy.deepcopy(spec)
     heat = "heat_modes" in spec
@@ -97,6 +97,28 @@ def augment(spec, rng, press_control=None, circ_loop=None, pi_valves=None, geoda
                                              element=kw["index"], et="pi", inner_diameter_mm=80.,
                                              opened=rng.random() < 0.7, loss_coefficient=0.,
                                              index=nxt("create_valve"))])
+    # junction-junction valves (et == "ju") next to the pipe-attached ones, with OVERLAPPING label spaces: the target
+    # junction of such a valve carries a label that is also a pipe label, so valve.element of a ju valve and of a pi
+    # valve can hold the same number with different meanings
+    if not heat and (ju_valves if ju_valves is not None else rng.random() < 0.6):
+        all_js = [kw["index"] for fn, kw in ops if fn == "create_junction"]
+        plabels = {kw["index"] for fn, kw in ops if fn == "create_pipe_from_parameters"}
+        shared = [j for j in all_js if j in plabels]
+        if not shared and len(all_js) >= 2:
+            # make one: a further pipe whose label is a junction label
+            free = [j for j in all_js if j not in usedp]
+            if free:
+                l = rng.choice(free)
+                usedp.add(l)
+                a, c = rng.sample(all_js, 2)
+                ops.append(["create_pipe_from_parameters", dict(from_junction=a, to_junction=c, length_km=0.25,
+                                                                inner_diameter_mm=100., k_mm=0.1, sections=1, index=l)])
+                shared = [l]
+        for tgt in rng.sample(shared, min(len(shared), rng.choice([1, 1, 2]))):
+            src = rng.choice([j for j in all_js if j != tgt])
+            a, c = (src, tgt) if rng.random() < 0.7 else (tgt, src)
+            ops.append(["create_valve", dict(junction=a, element=c, et="ju", inner_diameter_mm=80.,
+                                             opened=rng.random() < 0.8, loss_coefficient=0., index=nxt("create_valve"))])
     if t_ext_grid if t_ext_grid is not None else rng.random() < 0.15:
         ops.append(["create_ext_grid", dict(junction=rng.choice(js), p_bar=p0, t_k=t0, type="t",
                                             index=nxt("create_ext_grid"))])
